@@ -98,7 +98,16 @@ func c19Ctx() pongo2.Context {
 }
 
 func c19RandParam(r *Rng) (string, any) {
-	switch r.Intn(7) {
+	switch r.Intn(11) {
+	// parameters that contain a filtered expression of their own (in a subscript, in a call argument)
+	case 7:
+		return "lst[q|add:0]", "l3"
+	case 8:
+		return "lst[1|add:1]", "l2"
+	case 9:
+		return "ident(p|upper|lower|upper)", "OUTER"
+	case 10:
+		return "ident(q|add:1)", 4
 	case 0:
 		return "\"lit\"", "lit"
 	case 1:
@@ -246,7 +255,9 @@ var c19Positions = []c19Position{
 func c19RunChain(c *C, ch c19Chain, pos c19Position, probesOnly bool) bool {
 	e := ch.src()
 	files := pos.files(e)
-	files["/main.tpl"] = "{% autoescape off %}" + files["/main.tpl"] + "{% endautoescape %}"
+	timesWritten := strings.Count(files["/main.tpl"], e)
+	// (other filtered expressions were parsed before this one by the same parser: they render nothing)
+	files["/main.tpl"] = "{% autoescape off %}{% if \"warm\"|upper|lower|title|length > 99 %}x{% endif %}{% if sv|lower|upper|length == 0 %}y{% endif %}" + files["/main.tpl"] + "{% endautoescape %}"
 	set, _ := newSet(files)
 	tpl, cerr := set.FromFile("/main.tpl")
 	c.Eval(1)
@@ -290,7 +301,7 @@ func c19RunChain(c *C, ch c19Chain, pos c19Position, probesOnly bool) bool {
 	}
 	if probesOnly {
 		// every probe exactly once (twice where the position writes the expression twice), in order, with the right input and parameter
-		times := strings.Count(files["/main.tpl"], e)
+		times := timesWritten
 		if pos.name == "filter-param" {
 			wantLog = append(wantLog, c19Event{"vprobe_d", "base", want.String()})
 		}
